@@ -396,6 +396,13 @@ is closing (regenerated fact; the schedule "graceful stop while a worker is insi
 section conc). Pinned: a change of the shape breaks this obligation. -/
 theorem position_saved_after_every_copy : workerSavesPositionAfterEveryCopy = true := by decide
 
+/-- **Position files reach the disk in the order their snapshots are taken**: `ppipe.saveState` writes the file inside the
+critical section of the pipe's lock in which it changed and serialised the position map (regenerated fact), which is what makes
+the event `savePipeInfo` of the histories above ONE step (memory and file change together; `inv_savePipeInfo`). Written after
+the unlock, two workers of one pipe could store the older snapshot last, and the pipe would re-copy a batch after a graceful
+restart. Pinned: a change of the shape breaks this obligation. -/
+theorem positions_file_written_under_lock : positionsFileWrittenUnderPipeLock = true := by decide
+
 /-! ## non-vacuity -/
 
 /-- a history with every kind of event that satisfies the only hypothesis of the `…_reachable` theorems -/
